@@ -233,6 +233,26 @@ def machine_run(cmds, stacks, max_steps, stdin=""):
 
 def cases_for(op, seed):
     """yield (line, expected, pretty input)"""
+    if op == "opt.cmp":
+        # straight-line programs (no hearts, so they terminate) whose results are printed through stack 1;
+        # oracle: the unoptimised run of the same program (property C02)
+        rnd = random.Random(seed + 11)
+        N = ("N",)
+        for _ in range(300):
+            n = rnd.randint(2, 7)
+            cmds = []
+            for _ in range(n):
+                ty = rnd.randint(0, 5)
+                h = rnd.randint(1, 3)
+                d = rnd.randint(1, 5) if ty == 0 else rnd.choice([3, 3, 4, 5])
+                cmds.append((ty, h, d, N))
+            # print what is on the selected stack and on stack 3/4
+            cmds.append((1, 1, 1, N))
+            cmds.append((5, 1, 4, N))
+            cmds.append((1, 2, 1, N))
+            prog = ";".join("%d,%d,%d,%s" % (ty, h, d, " ".join(tree_tokens(t))) for ty, h, d, t in cmds)
+            yield ("opt.cmp\t%s" % prog, ("selfeq",), {"op": "run unoptimised vs optimised level 2", "commands(type,syllables,dots,area)": prog})
+        return
     if op == "exec.steps":
         rnd = random.Random(seed + 7)
         H2, H3, H13, N = ("H", 2), ("H", 3), ("H", 13), ("N",)
@@ -409,6 +429,7 @@ OPS = {
     "num_partial_cmp": ["num.cmp"],
     "PartialOrd_for_Num::partial_cmp": ["num.cmp"], "PartialEq_for_Num::eq": ["num.eq"],
     "calc": ["area.calc"], "Area::new": ["area.calc"],
+    "opt_execute": ["opt.cmp"], "calc_on_state_opt": ["opt.cmp"],
     "execute_one": ["exec.steps"], "calc_on_state": ["exec.steps", "area.calc"], "push_stack_wrap": ["exec.steps"],
     "pop_stack_wrap": ["exec.steps"], "State::push_stack": ["exec.steps"], "State::pop_stack": ["exec.steps"],
     "trait_State::push_stack": ["exec.steps"], "trait_State::pop_stack": ["exec.steps"], "ext_num_to_unicode": [],
@@ -424,10 +445,14 @@ PROP_OPS = {
     "C07": ["num.cmp", "area.calc", "big.eq", "big.cmp"],
     "C09": ["big.roundtrip", "big.to_base", "big.from_base", "num.roundtrip"],
     "C01": ["exec.steps", "area.calc", "num.cmp"],
+    "C02": ["opt.cmp"], "C10": [],
 }
 
 
 def matches(got, exp):
+    if isinstance(exp, tuple) and exp[0] == "selfeq":
+        m = got.split(" O2:")
+        return len(m) == 2 and m[0].startswith("O0:") and m[0][3:] == m[1]
     if isinstance(exp, tuple) and exp[0] == "abs":
         return got.lstrip("-") == str(exp[1])
     return got == exp
@@ -446,7 +471,8 @@ def search_ops(ops, seed):
         for (line, exp, pretty), got in zip(cases, outs):
             tried += 1
             if not matches(got, exp):
-                return {"input": pretty, "replay_line": line, "expected": exp if not isinstance(exp, tuple) else "|x| = %d" % exp[1],
+                return {"input": pretty, "replay_line": line,
+                        "expected": exp if not isinstance(exp, tuple) else ("|x| = %d" % exp[1] if exp[0] == "abs" else "same output at level 0 and level 2"),
                         "got": got, "note": "found by boundary-value replay against the Python oracle (%d inputs tried)" % tried}
     return {"input": None, "note": "boundary-value replay found no failing input (%d inputs, ops %s)" % (tried, ",".join(ops))}
 
@@ -475,5 +501,8 @@ def replay_doc(doc):
         return None, "replay driver did not build"
     got = run_lines([fi["replay_line"]])[0]
     exp = fi["expected"]
-    still = (got != exp) if not str(exp).startswith("|x|") else (got.lstrip("-") != str(exp).split("= ")[1])
+    if str(exp).startswith("same output"):
+        still = not matches(got, ("selfeq",))
+    else:
+        still = (got != exp) if not str(exp).startswith("|x|") else (got.lstrip("-") != str(exp).split("= ")[1])
     return still, "input %s: expected %s, real code returns %s" % (json.dumps(fi["input"], ensure_ascii=False), exp, got)
